@@ -47,6 +47,7 @@ TECHNIQUE = "static analysis: MIR call-graph reachability + panic-site inventory
 def run(ctx):
     _run_main7(ctx)
     _round7(ctx)
+    _round10(ctx)
 
 
 def _run_main7(ctx):
@@ -242,3 +243,10 @@ def _round7(ctx):
         A.include(ctx, r, 'c11', 'R11.2', pick=('basic::Cancel',))
     with ctx.rule('R07.11', "a violation in the same read as OpenOk is a violation: errors of the frames replayed after the handshake propagate (shared with C16)", floor=1) as r:
         A.include(ctx, r, 'c16', 'R16.8', pick=('errors-propagated',))
+
+
+def _round10(ctx):
+    """Rules of other properties that are necessary conditions of this one too (found by seeding round 10: two cooperating sites, indirection)."""
+    from rules import arms as A
+    with ctx.rule('R07.12', "a frame behind the server's CloseOk still ends the connection with its error: only the end of stream is excused once the client's close has completed (shared with C08)", floor=1) as r:
+        A.include(ctx, r, 'c08', 'R08.6', pick=('eof-after-clientclosed-is-ok',))
